@@ -232,3 +232,109 @@ func H_C13_untrained() {
 	vAssert(idx.Add(*NewVectorNodeWithID(3, []float32{2, 1}[:dim])) == nil, "add-after-training")
 	vCover("ran")
 }
+
+func init() { vHarnesses["H_C13_reuse"] = H_C13_reuse }
+
+// vC13Probed: the reference restricted to the p clusters whose centroids are nearest to pq (ties between
+// centroid distances are assumed away)
+func vC13Probed(idx *IVFIndex, m *vRef, pq []float32, p int) *vRef {
+	nlist := len(idx.centroids)
+	cd := make([]float32, nlist)
+	for c := range cd {
+		cd[c] = m.dist.Calculate(pq, idx.centroids[c])
+		vAssume(cd[c] == cd[c])
+	}
+	for a := 0; a < nlist; a++ {
+		for b := a + 1; b < nlist; b++ {
+			vAssume(cd[a] != cd[b])
+		}
+	}
+	var sub vRef
+	sub.dist, sub.scoreFn = m.dist, m.scoreFn
+	for li, list := range idx.lists {
+		nearer := 0
+		for o := range cd {
+			if o != li && cd[o] < cd[li] {
+				nearer++
+			}
+		}
+		if nearer >= p {
+			continue
+		}
+		for _, v := range list {
+			if e := m.find(v.ID()); e != nil {
+				sub.entries = append(sub.entries, *e)
+			}
+		}
+	}
+	return &sub
+}
+
+// state carried from one query to the next: three clusters, five concrete vectors, p = 1..2 probes.  One search
+// object is executed for a first query and then, re-targeted with WithQuery, for a second one; and a two-query batch
+// (max rule, k covering everything) is compared with its two single-query answers.  Each query probes ITS OWN p
+// nearest clusters.
+func H_C13_reuse() {
+	metric := []DistanceKind{L2Squared, Euclidean}[vChoose("metric", 2)]
+	idx, err := NewIVFIndex(1, 3, metric)
+	vAssert(err == nil, "constructor")
+	idx.centroids = vCentroids(3, 1, false) // 0, 4, -3
+	idx.trained = true
+	m := vNewRef(metric)
+	for i, x := range []float32{0.25, 3.5, -2.5, 4.75} {
+		vAddBoth(idx, m, uint32(20-3*i), []float32{x})
+	}
+	p := 1 + vChoose("nprobes", 2)
+	q1 := vVec("q1", 1)
+	q2 := vCopy([][]float32{{-3.25}, {0.5}, {4.5}}[vChoose("second_query", 3)])
+	vAssume(vAnd(q1[0] >= -16, q1[0] <= 16))
+	const k = 10
+	if vChoose("shape", 2) == 0 {
+		s := idx.NewSearch().WithQuery(vCopy(q1)).WithK(k).WithNProbes(p)
+		r1, e1 := s.Execute()
+		vAssert(e1 == nil, "search-ok")
+		vCheckExact(r1, vC13Probed(idx, m, q1, p).eligible(q1, 0, nil), k)
+		r2, e2 := s.WithQuery(vCopy(q2)).Execute()
+		vAssert(e2 == nil, "search-ok")
+		vTag("second-execute")
+		vCheckExact(r2, vC13Probed(idx, m, q2, p).eligible(q2, 0, nil), k)
+		vCover("second-execute")
+		return
+	}
+	rb, eb := idx.NewSearch().WithQuery(vCopy(q1), vCopy(q2)).WithK(k).WithNProbes(p).WithScoreAggregation(MaxAggregation).Execute()
+	vAssert(eb == nil, "search-ok")
+	E1 := vC13Probed(idx, m, q1, p).eligible(q1, 0, nil)
+	E2 := vC13Probed(idx, m, q2, p).eligible(q2, 0, nil)
+	// every id of either per-query answer is in the batch answer with the maximum of its scores, and nothing else is
+	cnt := 0
+	for i := range m.entries {
+		id := m.entries[i].id
+		var ss []float32
+		for _, e := range E1 {
+			if e.id == id {
+				ss = append(ss, e.d)
+			}
+		}
+		for _, e := range E2 {
+			if e.id == id {
+				ss = append(ss, e.d)
+			}
+		}
+		found := false
+		for _, r := range rb {
+			if r.GetId() == id {
+				found = true
+				vAssert(len(ss) > 0, "batch-result-comes-from-a-probed-cluster-of-one-of-the-queries")
+				if len(ss) > 0 {
+					vAssertIsMax(r.Score, ss, "batch-max")
+				}
+			}
+		}
+		if len(ss) > 0 {
+			cnt++
+			vAssert(found, "batch-holds-every-per-query-hit")
+		}
+	}
+	vAssert(len(rb) == cnt, "batch-count")
+	vCover("batch")
+}
